@@ -170,6 +170,9 @@ def run(tier, seed):
         y = json.loads(json.dumps(x))
         a = dict(y["attempts"][-1])
         a.pop("impl", None)
+        # the retry is served the same answers up to the one that made the first attempt fail,
+        # and honestly from there on
+        a["serve"] = a["serve"][:-1]
         y["attempts"].append(a)
         y["cls"] = y["cls"] + ["retry"]
         retry.append(y)
@@ -190,14 +193,15 @@ def run(tier, seed):
     t1 = os.path.join(c.work, "chain.trace.ndjson")
     c.run_harness("c03_chain", ["--mode", "cases", "--cases", p_cases, "--out", t1, "--seed", seed], timeout=7000)
     recs = vlib.read_ndjson(t1)
-    c.cov["stages"]["RUN:c03_chain"]["prediction_mismatches"] = _drift(c, recs, "chain")
+    c.cov["stages"]["RUN:chain-cases"] = c.cov["stages"].pop("RUN:c03_chain")
+    c.cov["stages"]["RUN:chain-cases"]["prediction_mismatches"] = _drift(c, recs, "chain")
     c.sample({k: v for k, v in [r for r in recs if r["accepted"]][0].items() if k != "certs"})
     c.sample({k: v for k, v in [r for r in recs if r["dev_following"]][:1][0].items()} if any(r["dev_following"] for r in recs) else "no following-epoch acceptance")
     c.validate("cert", "CertChainTrace", "CertChainTrace.cfg", t1, name="chain-cases")
 
     t2 = os.path.join(c.work, "chain.random.trace.ndjson")
     s = c.run_harness("c03_chain", ["--mode", "random", "--n", 400 if quick else 20000, "--out", t2, "--seed", seed], timeout=7000)
-    c.cov["stages"]["RUN:chain-random"] = s
+    c.cov["stages"]["RUN:chain-random"] = c.cov["stages"].pop("RUN:c03_chain")
     recs2 = vlib.read_ndjson(t2)
     c.validate("cert", "CertChainTrace", "CertChainTrace.cfg", t2, name="chain-random")
 
@@ -205,14 +209,15 @@ def run(tier, seed):
     c.run_harness("c03_client", ["--mode", "cases", "--cases", p_sessions, "--out", t3, "--seed", seed,
                                  "--nocache-every", 8], timeout=7000)
     recs3 = vlib.read_ndjson(t3)
-    c.cov["stages"]["RUN:c03_client"]["prediction_mismatches"] = _drift(c, recs3, "client")
+    c.cov["stages"]["RUN:client-cases"] = c.cov["stages"].pop("RUN:c03_client")
+    c.cov["stages"]["RUN:client-cases"]["prediction_mismatches"] = _drift(c, recs3, "client")
     c.sample({k: v for k, v in [r for r in recs3 if r["cache_hits"] and r["accepted"]][0].items() if k != "certs"})
     c.validate("cert", "CertChainTrace", "CertChainTrace.cfg", t3, name="client-cases")
 
     t4 = os.path.join(c.work, "client.random.trace.ndjson")
     s = c.run_harness("c03_client", ["--mode", "random", "--n", 300 if quick else 10000, "--out", t4, "--seed", seed,
                                      "--nocache-every", 3], timeout=7000)
-    c.cov["stages"]["RUN:client-random"] = s
+    c.cov["stages"]["RUN:client-random"] = c.cov["stages"].pop("RUN:c03_client")
     recs4 = vlib.read_ndjson(t4)
     c.validate("cert", "CertChainTrace", "CertChainTrace.cfg", t4, name="client-random")
 
